@@ -24,6 +24,7 @@ theorem eval_mapSrc (S : Sig α G) (ρ : String → α) (f : Src → Src) (g : G
   | polygon g ih => simp only [GT.mapSrc, GT.eval, ih]
   | clipRect g b0 b1 b2 b3 ih => simp only [GT.mapSrc, GT.eval, ih]
   | refine g ih => simp only [GT.mapSrc, GT.eval, ih]
+  | dedupe g r ih => simp only [GT.mapSrc, GT.eval, ih]
 
 /-- when the roll's contour is the groove's contour, redirecting every source to the groove changes nothing -/
 theorem eval_toGroove (S : Sig α G) (ρ : String → α) (h : S.src .rollContour = S.src .grooveContour) (g : GT) :
@@ -37,6 +38,7 @@ theorem eval_toGroove (S : Sig α G) (ρ : String → α) (h : S.src .rollContou
   | polygon g ih => simp only [GT.mapSrc, GT.eval, ih]
   | clipRect g b0 b1 b2 b3 ih => simp only [GT.mapSrc, GT.eval, ih]
   | refine g ih => simp only [GT.mapSrc, GT.eval, ih]
+  | dedupe g r ih => simp only [GT.mapSrc, GT.eval, ih]
 
 /-- a term depends on the environment only through the values of its scalar arguments -/
 theorem Bnd.eval_congr (ρ σ : String → α) (b : Bnd) (h : ∀ e : Expr, e.eval ρ = e.eval σ) : b.eval ρ = b.eval σ := by
